@@ -885,6 +885,19 @@ func markLocationCreated(ctx *Context, loc *Location) error {
 	return err
 }
 
+// createdMarkerId is the id of the fact that holds the marker.
+const createdMarkerId = "!." + createdMarker
+
+// legalId will return an error if the given id is the one under which
+// the creation marker is stored: clients can neither write nor remove
+// that fact.
+func legalId(ctx *Context, id string) error {
+	if id == createdMarkerId {
+		return fmt.Errorf("id '%s' is reserved", id)
+	}
+	return nil
+}
+
 func legalFact(ctx *Context, fact string) error {
 	if err := legalFactWithout(ctx, fact, createdMarker); err != nil {
 		return err
@@ -996,7 +1009,10 @@ func (sys *System) AddFact(ctx *Context, location string, id string, fact string
 	loc, err = sys.findLocation(ctx, location, true)
 	defer sys.releaseLocation(ctx, location)
 	if err == nil {
-		if err = legalFact(ctx, fact); err != nil {
+		if err = legalFact(ctx, fact); err == nil {
+			err = legalId(ctx, id)
+		}
+		if err != nil {
 			Log(UERR, ctx, "System.AddFact", "error", err, "location", location, "id", id, "factjs", fact)
 		} else {
 			Metric(ctx, "System.AddFact", "AddFact", "location", location, "id", id, "factjs", fact)
@@ -1035,6 +1051,9 @@ func (sys *System) RemFact(ctx *Context, location string, id string) (string, er
 	var loc *Location
 	loc, err = sys.findLocation(ctx, location, true)
 	defer sys.releaseLocation(ctx, location)
+	if err == nil {
+		err = legalId(ctx, id)
+	}
 	if err == nil {
 		Metric(ctx, "System.RemFact", "location", location, "id", id)
 		id, err = loc.RemFact(ctx, id)
@@ -1089,6 +1108,9 @@ func (sys *System) AddRule(ctx *Context, location string, id string, rule string
 	var loc *Location
 	loc, err = sys.findLocation(ctx, location, true)
 	defer sys.releaseLocation(ctx, location)
+	if err == nil {
+		err = legalId(ctx, id)
+	}
 	if err == nil {
 		Metric(ctx, "System.AddRule", "AddRule", "location", location, "ruleId", id, "rule", rule)
 		id, err = loc.AddRule(ctx, id, m)
@@ -1154,6 +1176,9 @@ func (sys *System) RemRule(ctx *Context, location string, id string) (string, er
 	var loc *Location
 	loc, err = sys.findLocation(ctx, location, true)
 	defer sys.releaseLocation(ctx, location)
+	if err == nil {
+		err = legalId(ctx, id)
+	}
 	if err == nil {
 		Metric(ctx, "System.RemRule", "location", location, "id", id)
 		id, err = loc.RemRule(ctx, id)
